@@ -133,7 +133,24 @@ static Scen enq(int conc, int reserved, int ntasks, int limit, bool two, bool ho
             for (int k = 0; k < ntasks; k++) { int u = 1 + id * 8 + k; while (!__atomic_load_n(&g_ran[u], __ATOMIC_SEQ_CST)) cosched::yield_point(); }
         }, [] { }};
 }
+// ---------------------------------------------------------------- suspension with a real worker in the arena (owner recall): the unit (id 9) suspends three times in a row;
+// a thread outside the arena resumes it each time; stacks migrate between the external thread and the worker.  Continuation only after resume: ResS.
+static std::atomic<void*> g_sps[4];
+static Scen suspW() {
+    return {2, [] { AR = new tbb::task_arena(2, 1); AR->initialize(); for (auto& x : g_sps) vh::rawstore(x, (void*)nullptr); },
+        [](int id) {
+            if (id == 1) { for (int k = 0; k < 3; k++) { void* p; while (!(p = g_sps[k].load())) cosched::yield_point(); for (int i = 0; i < 2; i++) cosched::yield_point();
+                    prod(1 + k, 1); tbb::task::resume((tbb::task::suspend_point)p); } return; }
+            AR->execute([&] { tbb::task_group tg;
+                tg.run([] { for (int k = 0; k < 3; k++) { inv(9, 1 + k, 1);
+                        tbb::task::suspend([k](tbb::task::suspend_point sp) { auto* q = (r1::suspend_point_type*)sp; track(&q->m_stack_state); track(&q->m_is_owner_recalled); g_sps[k].store(sp); });
+                        TR.emit("{\"e\":\"ResS\",\"t\":9,\"r\":%d,\"c\":1}", 1 + k); } prod(5, 1); });
+                for (int k = 0; k < 2; k++) tg.run([] { for (int i = 0; i < 3; i++) cosched::yield_point(); prod(5, 1); });      // work that attracts the worker
+                inv(0, 5, 3); tg.wait(); res(0, 5, 0); });
+        }, [] { }};
+}
 static Scen make(const std::string& s) {
+    if (s == "suspW") return suspW();
     if (s == "enqH") return enq(2, 1, 3, 0, false, true); if (s == "enq1H") return enq(1, 1, 3, 0, false, true); if (s == "enqL1H") return enq(2, 1, 3, 1, false, true); if (s == "enqx2H") return enq(2, 1, 2, 0, true, true);
     if (s == "enq") return enq(2, 1, 2, 0, false); if (s == "enq1") return enq(1, 1, 2, 0, false); if (s == "enq0") return enq(2, 0, 3, 0, false); if (s == "enq03") return enq(3, 0, 4, 0, false);
     if (s == "enqL1") return enq(2, 1, 2, 1, false); if (s == "enq1L1") return enq(1, 1, 2, 1, false); if (s == "enqL2x2") return enq(3, 1, 2, 2, true); if (s == "enqx2") return enq(2, 1, 2, 0, true);
@@ -183,7 +200,7 @@ int main(int argc, char** argv) {
     Stats* st = (Stats*)mmap(nullptr, sizeof(Stats), PROT_READ | PROT_WRITE, MAP_SHARED | MAP_ANONYMOUS, -1, 0); memset(st, 0, sizeof *st);
     vh::Timer tm; static const int dens[8] = {1, 3, 10, 40, -1, -2, -3, -5}; long crashed = 0;
     std::string tmp = std::string(argv[1]) + ".child"; bool first = true;
-    const int chunk = sc.rfind("enq", 0) == 0 ? 1 : 40;     // scenarios with RML workers start from a fresh process (fresh TBB runtime) every time
+    const int chunk = (sc.rfind("enq", 0) == 0 || sc == "suspW") ? 1 : 40;     // scenarios with RML workers start from a fresh process (fresh TBB runtime) every time
     for (int c0 = 0; c0 < nseeds && st->stuck < 6 && crashed < 4; c0 += chunk) {
         crashed += forked_case(tmp.c_str(), out, first, 240, [&] {
             { tbb::task_arena warm(1, 1); warm.initialize(); }     // library start-up (lazy statics, dynamic linking) happens outside scheduler control (DESIGN 2.3)
